@@ -2496,7 +2496,15 @@ class PE:
                 if p_ is not None and self.aliases:
                     self._drop_aliases_under(p_, env)
             base = self.ev(tgt.value, env)
-            newbase = set_attr(base, tgt.attr, val)
+            sw_ = None
+            if self.purity is not None and not update:
+                own_ = self.self_class if (isinstance(tgt.value, ast.Name) and tgt.value.id == self.self_name) else None
+                sw_ = self.purity.setter_writes(tgt.attr, own_)
+            if sw_ is not None:
+                # x.size = v where `size` is a property with a setter: the setter runs (and stores other attributes too)
+                newbase = ('mut', 'set:' + tgt.attr, base, (val,))
+            else:
+                newbase = set_attr(base, tgt.attr, val)
             if self.is_place(tgt.value):
                 self.store(tgt.value, newbase, env, True)
             else:
